@@ -173,7 +173,12 @@ def make_class(ncleanups):
 
         def setUp(self):
             super().setUp()
-            for i in range(ncleanups):
+            if ncleanups == "dup":
+                # one cleanup registered twice with identical arguments, another one in between
+                self.addCleanup(_cleanup_dup, self)
+                self.addCleanup(_cleanup, self, "c1")
+                self.addCleanup(_cleanup_dup, self)
+            for i in range(ncleanups if ncleanups != "dup" else 0):
                 if i == 0:
                     # (keyword arguments are the cleanup's business, whatever they are called)
                     self.addCleanup(_cleanup, self, "c%d" % (i + 1), f=1, function=2)
@@ -195,6 +200,11 @@ def make_class(ncleanups):
     return AProg
 
 
+def _cleanup_dup(case):
+    n = case._ctx.dup_runs = getattr(case._ctx, "dup_runs", 0) + 1
+    return behave(case, case._ctx, "d#%d" % n)
+
+
 def _cleanup(case, name, f=None, function=None):
     return behave(case, case._ctx, name)
 
@@ -208,7 +218,10 @@ def model(ncleanups, decisions, timeout, stage_first_at_tie=False):
     timed_out = False
     pending_logged = 0
     tie_timeout = False
-    planned = ["setUp", "test", "tearDown"] + ["c%d" % i for i in range(ncleanups, 0, -1)]
+    if ncleanups == "dup":
+        planned = ["setUp", "test", "tearDown", "d#1", "c1", "d#2"]
+    else:
+        planned = ["setUp", "test", "tearDown"] + ["c%d" % i for i in range(ncleanups, 0, -1)]
     out_seq = []
     i = 0
     stages = list(planned)
@@ -310,7 +323,7 @@ def execute(config, chooser):
             if e[0] == "SIGINT":
                 interrupt_at = e[1]
         stages_at_end = len(ctx.stage_log)
-        if ctx.stage_log and ctx.stage_log[-1][0].startswith(("c", "x:")) and dict(ctx.decisions).get(ctx.stage_log[-1][0]) in tuple(DELAY) + ("never",):
+        if ctx.stage_log and ctx.stage_log[-1][0].startswith(("c", "x:", "d#")) and dict(ctx.decisions).get(ctx.stage_log[-1][0]) in tuple(DELAY) + ("never",):
             # the run was abandoned while a cleanup's Deferred was unfired (timeout/interrupt): the
             # suspended cleanup chain is garbage now.  Finalising it must not start anything.
             # (the young generations only: the chain was created during this execution)
@@ -408,6 +421,7 @@ def configs(tier):
         for timeout in (1.0, 3.5, 100.0):
             out.append(("broken", True, True, timeout, 1, True))
         out.append(("broken", True, True, 100.0, 2, False))
+        out.append(("plain", True, True, 100.0, "dup", False))
         for suppress, store in ((True, False), (False, True), (False, False)):
             for variant in ("plain", "broken"):
                 for timeout in (1.5, 100.0):
@@ -418,6 +432,8 @@ def configs(tier):
             for timeout in TIMEOUTS:
                 for nc in (0, 1, 2):
                     out.append((variant, suppress, store, timeout, nc, nc == 1))
+        out.append((variant, True, True, 100.0, "dup", False))
+        out.append((variant, True, True, 1.5, "dup", False))
     return out
 
 
